@@ -223,8 +223,63 @@ func checkC18(c *core.Ctx) {
 	sort.Strings(defSlices)
 	c.Count("file_definition_slices", len(defSlices))
 	c.Floor("file_definition_slices", 5)
-	comb := caseBody(gen, "ImportGenerationModeCombined")
-	sep := caseBody(gen, "ImportGenerationModeSeparate")
+	// the switch on the import mode: in Generate or in a helper it calls
+	var comb, sep []ast.Stmt
+	for _, d := range declClosure(p, pkg, gen, 2) {
+		if cb, sp := caseBody(d, "ImportGenerationModeCombined"), caseBody(d, "ImportGenerationModeSeparate"); cb != nil && sp != nil {
+			comb, sep = cb, sp
+			break
+		}
+	}
+	// appendsAndRanges: a package function that ranges over its parameter
+	// `defs`, appends to its parameter `dst` and returns it
+	appendsAndRanges := func(call *ast.CallExpr) (dst, defs int, ok bool) {
+		cal := load.Callee(info, call)
+		if cal == nil || cal.Pkg() != pkg.Types {
+			return 0, 0, false
+		}
+		cd := p.Decl(cal)
+		sig, _ := cal.Type().(*types.Signature)
+		if cd == nil || cd.Body == nil || sig == nil {
+			return 0, 0, false
+		}
+		paramIdx := func(e ast.Expr) int {
+			id, isId := ast.Unparen(e).(*ast.Ident)
+			if !isId {
+				return -1
+			}
+			for i := 0; i < sig.Params().Len(); i++ {
+				if info.ObjectOf(id) == types.Object(sig.Params().At(i)) {
+					return i
+				}
+			}
+			return -1
+		}
+		dst, defs = -1, -1
+		returned := -1
+		ast.Inspect(cd.Body, func(n ast.Node) bool {
+			switch x := n.(type) {
+			case *ast.RangeStmt:
+				if i := paramIdx(x.X); i >= 0 {
+					defs = i
+				}
+			case *ast.AssignStmt:
+				if len(x.Lhs) == 1 && len(x.Rhs) == 1 {
+					if ap, isC := x.Rhs[0].(*ast.CallExpr); isC && wire.Canon(ap.Fun) == "append" && len(ap.Args) >= 2 {
+						if i := paramIdx(x.Lhs[0]); i >= 0 && paramIdx(ap.Args[0]) == i {
+							dst = i
+						}
+					}
+				}
+			case *ast.ReturnStmt:
+				if len(x.Results) == 1 {
+					returned = paramIdx(x.Results[0])
+				}
+			}
+			return true
+		})
+		return dst, defs, dst >= 0 && defs >= 0 && dst != defs && returned == dst
+	}
 	if comb == nil || sep == nil {
 		c.Undecide("the import mode switch of File.Generate was not found")
 	} else {
@@ -245,6 +300,14 @@ func checkC18(c *core.Ctx) {
 						}
 						f := fileField(info, x.Lhs[0])
 						ap, ok := x.Rhs[0].(*ast.CallExpr)
+						if f != "" && ok {
+							// <File>.F = helper(<File>.F, <other File>.F, …)
+							if dst, defs, isH := appendsAndRanges(ap); isH && dst < len(ap.Args) && defs < len(ap.Args) &&
+								fileField(info, ap.Args[dst]) == f && fileField(info, ap.Args[defs]) == f && wire.Canon(ap.Args[dst]) == wire.Canon(x.Lhs[0]) {
+								appendsTo[f], ranged[f] = true, true
+								return true
+							}
+						}
 						if f == "" || !ok || wire.Canon(ap.Fun) != "append" || len(ap.Args) < 2 || fileField(info, ap.Args[0]) != f {
 							return true
 						}
